@@ -195,6 +195,25 @@ func mutateTerm(t *rapid.T, cfg termCfg, a *term) *term {
 	if a.Kind == tLabelSelector && !a.Sel.Nil && rapid.IntRange(0, 2).Draw(t, "selmut") > 0 {
 		return mutateSelector(t, a)
 	}
+	if (a.Kind == tLabels || a.Kind == tSelectorMatch) && rapid.IntRange(0, 2).Draw(t, "setmut") > 0 {
+		nb := cloneTerm(a)
+		nb.Set = mutateSet(t, nb.Set)
+		return nb
+	}
+	if len(a.Sources) > 0 && rapid.IntRange(0, 3).Draw(t, "srcmut") == 0 {
+		// one source's label-valued argument changed slightly
+		nb := cloneTerm(a)
+		w := &nb.Sources[rapid.IntRange(0, len(nb.Sources)-1).Draw(t, "si")]
+		switch {
+		case w.HasSet:
+			w.SetSel = mutateSet(t, w.SetSel)
+		case w.Template != nil:
+			w.Template = mutateSet(t, w.Template)
+		case !w.Sel.Nil && w.Sel.MatchLabels != nil:
+			w.Sel.MatchLabels = mutateSet(t, w.Sel.MatchLabels)
+		}
+		return nb
+	}
 	switch rapid.IntRange(0, 9).Draw(t, "mut") {
 	case 0, 1: // rebuilt identical
 		return cloneTerm(a)
@@ -214,10 +233,16 @@ func mutateTerm(t *rapid.T, cfg termCfg, a *term) *term {
 			return fresh
 		}
 		return nb
-	case 5: // drop or add a child
+	case 5: // drop a child, or make one child a duplicate of another (same length, fewer distinct children)
 		nb := cloneTerm(a)
 		if (nb.Kind == tAnd || nb.Kind == tOr) && len(nb.Children) > 0 {
-			nb.Children = nb.Children[:len(nb.Children)-1]
+			if len(nb.Children) > 1 && rapid.Bool().Draw(t, "dup") {
+				i := rapid.IntRange(0, len(nb.Children)-1).Draw(t, "from")
+				j := rapid.IntRange(0, len(nb.Children)-1).Draw(t, "to")
+				nb.Children[j] = cloneTerm(nb.Children[i])
+			} else {
+				nb.Children = nb.Children[:len(nb.Children)-1]
+			}
 		}
 		return nb
 	case 6: // swap And <-> Or
@@ -314,4 +339,42 @@ func mutateSelector(t *rapid.T, a *term) *term {
 		b.Sel.MatchLabels[k] = rapid.SampledFrom(uniValues).Draw(t, "v")
 	}
 	return b
+}
+
+// mutateSet: a label map that differs from m in one small way - a key moved
+// (same value under another key), a value changed (possibly to the empty
+// string), a key added or removed.  Always returns a fresh map.
+func mutateSet(t *rapid.T, m map[string]string) map[string]string {
+	out := map[string]string{}
+	for k, v := range m {
+		out[k] = v
+	}
+	k := rapid.SampledFrom(uniKeys).Draw(t, "mk")
+	_, has := out[k]
+	switch rapid.IntRange(0, 3).Draw(t, "sethow") {
+	case 0: // move k's entry to another key
+		if has {
+			v := out[k]
+			delete(out, k)
+			for _, k2 := range uniKeys {
+				if _, has2 := out[k2]; k2 != k && !has2 {
+					out[k2] = v
+					break
+				}
+			}
+		} else {
+			out[k] = ""
+		}
+	case 1: // change (or set) the value
+		out[k] = rapid.SampledFrom(uniValues).Draw(t, "mv")
+	case 2: // remove / add
+		if has {
+			delete(out, k)
+		} else {
+			out[k] = rapid.SampledFrom(uniValues).Draw(t, "mv")
+		}
+	case 3: // empty value
+		out[k] = ""
+	}
+	return out
 }
